@@ -43,7 +43,7 @@ CLAIMED = {
          'Hex codec on exact guard-page buffers against a small model incl. every byte value at every position of short strings; NO_STL byte_array sequences shadowed by std::vector on 4 aliased objects, release and ASan builds.',
          'Operation sequences sampled; undefined vector operations not called.', '4 C20'),
  'C12': ('exploration', 'ASan + UBSan builds of the whole harness corpus on exactly-sized guard-page buffers (canaries, NULL for empty inputs), -O3 builds under guard pages for the assembly, CLI tools under ASan on hostile argument vectors',
-         'All ten harness programs re-run with every object between PROT_NONE pages under gcc ASan+UBSan for 5 backend/share builds (quick) or all 135 configurations (thorough); release builds repeat it so that assembly accesses are covered; asconcrypt/asconsum under ASan with file names, passwords, key files and check files around every buffer size.',
+         'All ten harness programs re-run with every object between PROT_NONE pages under gcc ASan+UBSan for 5 backend/share builds (quick) or 87 configurations (thorough: the 3 masked backends x all 27 share triples, plus 6 direct-XOR/generic builds); release builds repeat it so that assembly accesses are covered; asconcrypt/asconsum under ASan with file names, passwords, key files and check files around every buffer size.',
          'Red-zone tools miss far/intra-object overflows and library stack locals; only documented argument domains.', '4 C12'),
  'C13': ('exploration', 'differential raw-byte snapshot monitor on released objects (two runs differing only in secrets), -O3 shipped code',
          '42 object types through random histories; bytes of the storage after free/clear/destructor compared between two secret sets, with a liveness check that the bytes before release did differ.',
